@@ -6,7 +6,7 @@ META = {
     "technique": "static analysis: sibling-branch comparison of the two device arms (normalised operands) and "
                  "literal evaluation of the batched kernel's accumulation table",
     "design_ref": "DESIGN.md §5 C06",
-    "explanation": "DEVICE: at each `if x.is_cpu: y = A @ B else: y = matmul_2x2_with_batched(A', B')` site "
+    "explanation": "HAM-form (diagonal builders): both _create_diagonal implementations (Hamiltonian and Lindbladian) cover every pair i<j unconditionally on the level-1 slices, the Hamiltonian one also subtracts deltas[i] once per i. DEVICE: at each `if x.is_cpu: y = A @ B else: y = matmul_2x2_with_batched(A', B')` site "
                    "(2 in lindblad_operator.py) the two arms take the same operands (including .conj()) and "
                    "assign the same target; matmul_2x2_with_batched's four index_add_ calls form the table "
                    "{(r,c)} with alpha=left[r,c], destination row r, source right[:,c], starting from zeros. "
